@@ -84,7 +84,7 @@ fn run_field<F: FieldLike>(ctx: &Ctx, rec: &mut Rec) {
             }
         }
         // zoo x zoo: thorough = every pair with a rotating subset of forms; quick = seeded sample
-        let stride = ctx.scale(23, 1);
+        let stride = ctx.scale(7, 1);
         let mut idx = rand_range(&mut rng, stride);
         let total = zoo.len() * zoo.len();
         while idx < total {
@@ -99,7 +99,7 @@ fn run_field<F: FieldLike>(ctx: &Ctx, rec: &mut Rec) {
             idx += stride;
         }
         // random pairs x all forms
-        let nr = ctx.scale(600, 60_000);
+        let nr = ctx.scale(3000, 60_000);
         for r in 0..nr {
             if r % n != w {
                 continue;
@@ -168,7 +168,7 @@ fn run_field<F: FieldLike>(ctx: &Ctx, rec: &mut Rec) {
         let broken: Vec<String> = rec.sigs_seen.keys().cloned().collect();
         par(rec, |w, n, rec| {
             let mut rng = rng_for(ctx.seed, P, w, 200 + phase + F::NBYTES as u64);
-            let reps = ctx.scale(300, 20_000);
+            let reps = ctx.scale(1500, 20_000);
             for rep in 0..reps {
                 if rep % n != w {
                     continue;
@@ -176,6 +176,26 @@ fn run_field<F: FieldLike>(ctx: &Ctx, rec: &mut Rec) {
                 let a = if rep % 4 == 0 { zoo[rand_range(&mut rng, zoo.len())].0.clone() } else { rand_below(&mut rng, &f.p) };
                 let nl = rep % 6; // 0..=5 limbs
                 let mut limbs: Vec<u64> = (0..nl).map(|_| rand_below(&mut rng, &(b(1) << 64)).to_u64_digits().first().copied().unwrap_or(0)).collect();
+                // sparse / structured limb patterns: zero limbs below non-zero ones, single high bit,
+                // all-ones limbs (every third repetition)
+                if rep % 3 == 0 {
+                    for l in limbs.iter_mut() {
+                        *l = match rand_range(&mut rng, 6) {
+                            0 | 1 => 0,
+                            2 => 1,
+                            3 => u64::MAX,
+                            4 => 1u64 << rand_range(&mut rng, 64),
+                            _ => *l,
+                        };
+                    }
+                    if rep % 6 == 0 {
+                        if let Some(last) = limbs.last_mut() {
+                            if *last == 0 {
+                                *last = 1;
+                            }
+                        }
+                    }
+                }
                 if phase == 0 {
                     if let Some(l0) = limbs.first_mut() {
                         *l0 %= 4096;
@@ -221,7 +241,7 @@ fn run_field<F: FieldLike>(ctx: &Ctx, rec: &mut Rec) {
     // sums and products over iterators
     par(rec, |w, n, rec| {
         let mut rng = rng_for(ctx.seed, P, w, 300 + F::NBYTES as u64);
-        let reps = ctx.scale(60, 6000);
+        let reps = ctx.scale(400, 6000);
         for rep in 0..reps {
             if rep % n != w {
                 continue;
